@@ -1,5 +1,5 @@
 (* Alg/C13Harness.v — executable instances used by the generated C13 cases, the weight laws over Qc and the
-   concrete refutation witnesses of the sampler findings. *)
+   concrete instances (extreme draws; the open short-supply finding C13-S1). *)
 From Coq Require Import List ZArith Lia Bool Arith QArith Qcanon.
 From PV Require Import Base.Index Np.Array Model.Sparse Model.Harness Alg.C13Samplers Alg.C13Solver.
 Import ListNotations.
@@ -19,25 +19,12 @@ Definition zmat_eqb := list_eqb vec_eqb.
 (* np.sort(tt_sub2ind(shape, subs)) up to order *)
 Definition znzidx (S : sparse Z) : list Z := map (fun j => Z.of_nat (sub2ind (sshape S) j)) (ssubs S).
 
-(* ---- the REPAIRED samplers (fixes/C13-*.diff): floor(u*d) instead of ceil(u*d)-1 and ceil(u*(d-1)); zero values and
-   weights sized by the zero subscripts actually obtained.  Generated cases accept either the faithful or the repaired
-   behaviour, so repairing pyttb never raises an alarm. ---- *)
-Definition draw_floor (a d : Z) : Z := (a * d) / D53.
-Lemma draw_floor_range a d : 0 <= a < D53 -> 0 < d -> 0 <= draw_floor a d < d.
-Proof.
-  intros Ha Hd. unfold draw_floor. pose proof D53_pos. split.
-  - apply Z.div_pos; nia.
-  - apply Z.div_lt_upper_bound; nia.
-Qed.
-Definition fx_row (s : shape) (row : list Z) : list Z := zip2 draw_floor row (zshape s).
-Definition fx_uniform_subs (s : shape) (draws : list (list Z)) := map (fx_row s) draws.
-Definition fx_uniform_vals (X : dense Z) (draws : list (list Z)) := map (read_dense 0 X) (fx_uniform_subs (dshape X) draws).
-Definition fx_zero_subs (s : shape) (nzidx : list Z) (draws : list (list Z)) (req : nat) :=
-  firstn req (filter (is_zero_row s nzidx) (map (fx_row s) draws)).
-Definition fx_strat_subs (S : sparse Z) nzidx nidx draws req := nz_subs S nidx ++ fx_zero_subs (sshape S) nzidx draws req.
-Definition fx_strat_vals (S : sparse Z) nzidx (nidx : list nat) draws req :=
-  nz_vals 0 S nidx ++ repeat 0 (length (fx_zero_subs (sshape S) nzidx draws req)).
-Definition fx_semi_subs (S : sparse Z) (nidx : list nat) (draws : list (list Z)) := nz_subs S nidx ++ map (fx_row (sshape S)) draws.
+(* finding C13-S1 (open): what a repaired stratified sampler would return when fewer zeros are obtained than requested —
+   zero values (and weights) sized by the zero subscripts actually obtained.  Accepted by the generated cases ONLY inside
+   the trigger region of that finding (short zero supply). *)
+Definition zstrat_vals_fixed := strat_vals_fixed (V:=Z) D53 0.
+Lemma D53_draw_range a d : 0 <= a < D53 -> 0 < d -> 0 <= draw_sub D53 a d < d.
+Proof. apply draw_sub_range. exact D53_pos. Qed.
 
 (* ---- what C13 states about ONE observed sample (subscripts, values, number of weights) ---- *)
 Definition sample_ok_dense (X : dense Z) (subs : list (list Z)) (vals : list Z) (nw : nat) : bool :=
@@ -89,24 +76,27 @@ Local Close Scope Qc_scope.
 Definition zsolve (ests : list Z) (max_fails : nat) (tol : option Z) (max_iters : nat) : st nat unit Z :=
   solve nat unit Z Z.leb (fun k => nth k ests 0) (fun n _ o _ => (S n, o)) (fun o => o) max_fails tol max_iters 0%nat tt.
 Definition zfull_trace (ests : list Z) (s : st nat unit Z) : list Z := full_trace nat unit Z (fun k => nth k ests 0) 0%nat s.
-Definition zreported_trace (ests : list Z) (s : st nat unit Z) : list Z := reported_trace nat unit Z (fun k => nth k ests 0) 0%nat s.
+Definition zreported_trace (ests : list Z) (max_iters : nat) (s : st nat unit Z) : list Z :=
+  reported_trace nat unit Z (fun k => nth k ests 0) 0 max_iters 0%nat s.
 (* observation of a solve: index candidates of the returned model, completed epochs, _nfails afterwards, n_epoch *)
 Definition zsolve_ok (ests : list Z) (max_fails : nat) (tol : option Z) (max_iters : nat)
            (ret_cands : list nat) (nepochs nfails_obs n_epoch_obs : nat) : bool :=
   let s := zsolve ests max_fails tol max_iters in
   existsb (Nat.eqb (cur _ _ _ s)) ret_cands && Nat.eqb (epochs _ _ _ s) nepochs &&
-  Nat.eqb (nfails _ _ _ s) nfails_obs && Nat.eqb (reported_n_epoch _ _ _ s) n_epoch_obs.
+  Nat.eqb (nfails _ _ _ s) nfails_obs && Nat.eqb (reported_n_epoch _ _ _ s) n_epoch_obs &&
+  vec_eqb (zreported_trace ests max_iters s) (zfull_trace ests s).
 
-(* ---- concrete refutations (sampler findings) ---- *)
-(* A-48: the draw u = 0.0 produces a subscript outside the tensor *)
-Example uniform_zero_draw_out_of_range :
-  zuniform_subs [2; 3]%nat [[0; D53 / 2]] = [[-1; 1]] /\ in_rangeZb [2; 3]%nat [-1; 1] = false.
+(* ---- concrete instances ---- *)
+(* the extreme draws u = 0.0 and u = 1 - 2^-53 give the first and the last index (A-48 repaired) *)
+Example uniform_extreme_draws_in_range :
+  zuniform_subs [2; 3]%nat [[0; D53 - 1]; [D53 / 2; D53 / 3]] = [[0; 2]; [1; 0]] /\
+  forallb (in_rangeZb [2; 3]%nat) (zuniform_subs [2; 3]%nat [[0; D53 - 1]; [D53 / 2; D53 / 3]]) = true.
 Proof. split; reflexivity. Qed.
 
-(* short zero supply: 2x2 tensor with 3 nonzeros, 2 zeros requested, the drawn rows contain the only zero once:
+(* finding C13-S1 (open) — short zero supply: 2x2 tensor with 3 nonzeros, 2 zeros requested, the drawn rows contain the only zero once:
    stratified returns 2 subscripts but 3 values *)
 Example stratified_short_supply_lengths_differ :
   let S := mkSp [2; 2]%nat [[0; 0]; [1; 0]; [0; 1]]%nat [5; 6; 7] in
-  let draws := [[1; 1]; [D53; D53]; [D53; 1]] in
+  let draws := [[0; 0]; [D53 - 1; D53 - 1]; [D53 - 1; 0]] in
   length (zstrat_subs S [0; 1; 2] [1%nat] draws 2) = 2%nat /\ length (zstrat_vals S [1%nat] 2) = 3%nat.
 Proof. split; reflexivity. Qed.
